@@ -279,7 +279,9 @@ def _check_chs(ctx: Ctx, case, mb: MB) -> None:
     pf = p64.reshape(-1, N, D)
     of = o64.reshape(-1, L, D)
     scf = sc_alg.reshape(-1, D)
-    fibres = {(rnd.randrange(pf.shape[0]), rnd.randrange(D)) for _ in range(3)}
+    fibres = {(rnd.randrange(pf.shape[0]), rnd.randrange(D)) for _ in range(3)} | {(pf.shape[0] - 1, D - 1)}
+    if N * k > 1500:
+        fibres = set()          # very long sequences: the model is consulted on windows by run_pass4 instead
     for (b, d) in sorted(fibres):
         col = pf[b, :, d].tolist()
         got = of[b, :, d].tolist()
@@ -358,7 +360,7 @@ def _check_chs(ctx: Ctx, case, mb: MB) -> None:
             ctx.fail(pub(case), f"chs-raises: chspline raised after moving one point: {excs(e)}")
     # oracle (class 7): every batch item = the un-batched call on that item alone
     if pf.shape[0] > 1:
-        for b in range(pf.shape[0]):
+        for b in (range(pf.shape[0]) if pf.shape[0] <= 64 else sorted({0, pf.shape[0] - 1} | {ra.randrange(pf.shape[0]) for _ in range(4)})):
             try:
                 ob = P.chspline(before.reshape(-1, N, D)[b].clone(), iv).double()
                 if ob.shape != of[b].shape:
@@ -557,7 +559,7 @@ def _check_bs(ctx: Ctx, case, mb: MB) -> None:
                 if not (dq <= qt and dt_ <= tt):
                     ctx.fail(pub(case), f"bs-ends: extrapolate=True but the {nm} output pose differs from the {nm} input pose (rotation {dq:.3e}, translation {dt_:.3e}; N={N}, dtype={dtype})")
     # model: whole item(s)
-    for b in sorted({rnd.randrange(nb) for _ in range(2)}):
+    for b in sorted({rnd.randrange(nb) for _ in range(2)} | {nb - 1}):
         if near_pi(d64[b]):
             ctx.count("bs.skip.nearpi")
             continue
@@ -626,7 +628,7 @@ def _check_bs(ctx: Ctx, case, mb: MB) -> None:
         ctx.fail(pub(case), f"bs-raises: bspline raised on G*data: {excs(e)}")
     # oracle: batch consistency
     if nb > 1:
-        for b in range(nb):
+        for b in (range(nb) if nb <= 64 else sorted({0, nb - 1} | {rnd.randrange(nb) for _ in range(4)})):
             try:
                 yb = call_bspline(P.LieTensor(before.reshape(-1, N, 7)[b].clone(), ltype=P.SE3_type), iv, ex).tensor().double().numpy()
                 dq, dt_ = R.pose_dist(yb, y64[b]) if yb.shape == y64[b].shape else (np.array([math.inf]), np.array([math.inf]))
@@ -2217,6 +2219,478 @@ def run_pass2(ctx: Ctx):
         expect_same(ctx, c, f"{fn_.__name__} after writing into an earlier result", keep, lambda: fn_(rs, rp, es, ep, etype="pose"))
 
 
+# ============================================================================= hardening pass 4 (classes 19-26)
+
+def rand_unit_quats(g, n):
+    q = torch.randn(n, 4, generator=g, dtype=torch.float64)
+    return q / q.norm(dim=-1, keepdim=True)
+
+
+def rand_poses_t(g, shape, tscale=1.0):
+    n = int(math.prod(shape))
+    return torch.cat([torch.randn(n, 3, generator=g, dtype=torch.float64) * tscale, rand_unit_quats(g, n)], -1).reshape(tuple(shape) + (7,))
+
+
+def split_consistent(ctx, case, name, f, x, dim, cuts, cat_dim=None):
+    """class 19: f(x) == cat(f(x[:a]), f(x[a:])) bit for bit along a batch axis, and single items reproduce"""
+    cat_dim = dim if cat_dim is None else cat_dim
+    full = f(x)
+    ft = full.tensor() if hasattr(full, "ltype") else full
+    n = x.shape[dim]
+    for a in cuts:
+        if not 0 < a < n:
+            continue
+        lo, hi = f(x.narrow(dim, 0, a)), f(x.narrow(dim, a, n - a))
+        lo = lo.tensor() if hasattr(lo, "ltype") else lo
+        hi = hi.tensor() if hasattr(hi, "ltype") else hi
+        ctx.note_case(("pass4", "split", name, n, a), True)
+        ctx.count(f"large.{name}")
+        if not same_bits(ft, torch.cat([lo, hi], cat_dim)):
+            bad = (ft != torch.cat([lo, hi], cat_dim)).nonzero()
+            ctx.fail(case | {"cut": a}, f"split: {name} on {n} items differs from the concatenation of the calls on items [:{a}] and [{a}:] "
+                                        f"(first differing index {bad[0].tolist() if len(bad) else 'shape'})")
+            return ft
+    for i in sorted({0, n - 1, n // 2, n - 2} if n <= 1025 else {0, n - 1}):
+        one = f(x.narrow(dim, i, 1))
+        one = one.tensor() if hasattr(one, "ltype") else one
+        if not same_bits(ft.narrow(cat_dim, i, 1), one):
+            ctx.fail(case | {"item": i}, f"split: item {i} of {n} in {name} differs from the call on that item alone")
+            return ft
+    return ft
+
+
+def run_pass4(ctx: Ctx, mb: MB):
+    P = pp()
+    A = AR()
+    g = torch.Generator().manual_seed(CORPUS_SEED + 4)
+    quick = ctx.quick
+    lt = lambda t: P.LieTensor(t, ltype=P.SE3_type)
+    # ------------------------------------------------------------ class 19: sizes 2^k, 2^k +- 1, one > 2^14, one > 2^16
+    sizes = [256, 257, 1025, 4097, 16385, 65537] + ([] if quick else [255, 1023, 4095, 4096, 16383, 16384, 32769, 65535, 65536])
+    for n in sizes:
+        for dtype in (("float64",) if (quick and n not in (257, 16385)) else ("float64", "float32")):
+            D_ = DT[dtype]
+            eps = EPS[dtype]
+            cuts = [1, n // 2, n - 1, (n // 256) * 256 if n > 256 else 3] if n <= 1025 else ([n - 1, (n // 256) * 256] if n <= 4097 else [n - 1])
+            # chspline over a batch of n sequences
+            pts = torch.randn(n, 4, 2, generator=g, dtype=torch.float64).to(D_)
+            c = {"kind": "large", "fn": "chspline", "batch": n, "dtype": dtype}
+            try:
+                out = split_consistent(ctx, c, "chspline(batch)", lambda x: P.chspline(x, 0.4), pts, 0, cuts)
+                if not bool(((out[:, ::3, :].double() - pts.double()).abs() <= 16 * eps * (1 + pts.double().abs())).all()):
+                    ctx.fail(c, f"large: chspline on a batch of {n} does not interpolate every item")
+                col = pts[n - 1, :, 1].double().tolist()
+                got = out[n - 1, :, 1].double().tolist()
+
+                def cb(rep, got=got, c=c, tol=64 * eps * 12):
+                    w = nums(rep)
+                    if len(w) != len(got) or not max(abs(a - b) for a, b in zip(got, w)) <= tol:
+                        ctx.disagree("chs", c, f"last item of a batch of {c['batch']}: implementation {got[:4]}… model {w[:4]}…")
+                        ctx.fail(c, f"large: the LAST item of a chspline batch of {c['batch']} differs from the Hermite spline of its points")
+                mb.add(f"c19.chs 4 3 {to_wire(0.4)} " + wire_list(col), cb)
+            except Exception as e:
+                ctx.fail(c, f"large-raises: chspline raised on a batch of {n}: {excs(e)}")
+            # bspline over a batch of n pose sequences
+            X = rand_poses_t(g, (n, 4)).to(D_)
+            c = {"kind": "large", "fn": "bspline", "batch": n, "dtype": dtype}
+            try:
+                for ex in ((False, True) if n <= 4097 else (False,)):
+                    out = split_consistent(ctx, c | {"extrapolate": ex}, "bspline(batch)", lambda x, ex=ex: P.bspline(lt(x), 0.5, extrapolate=ex), X, 0, cuts)
+                if n == 16385 and dtype == "float64":
+                    split_consistent(ctx, c | {"extrapolate": True}, "bspline(batch)", lambda x: P.bspline(lt(x), 0.5, extrapolate=True), X[:, :2], 0, [n - 1])
+                d_last = X[n - 1].double()
+                if abs(float(R.qmul(R.qconj(d_last[:-1, 3:].numpy()), d_last[1:, 3:].numpy())[:, 3].__abs__().min())) > 1e-3:
+                    got = P.bspline(lt(X), 0.5)[n - 1].tensor().double().numpy()
+
+                    def cbb(rep, got=got, c=c, eps=eps, d_last=d_last):
+                        w = np.array(nums(rep)).reshape(-1, 7)
+                        qt, tt = bs_tols(eps, d_last.numpy(), [0.0, 0.5])
+                        dq, dt_ = R.pose_dist(got, w) if w.shape == got.shape else (np.array([math.inf]), np.array([math.inf]))
+                        if not (dq.max() <= qt and dt_.max() <= tt):
+                            ctx.disagree("bs", c, f"last item of a batch of {c['batch']}: rotation {dq.max():.3e} translation {dt_.max():.3e}")
+                            ctx.fail(c, f"large: the LAST item of a bspline batch of {c['batch']} differs from the documented spline of its poses")
+                    mb.add(f"c19.bs {to_wire(eps)} 2 {to_wire(0.5)} 0 4 " + wire_list(d_last.flatten().tolist()), cbb)
+            except Exception as e:
+                ctx.fail(c, f"large-raises: bspline raised on a batch of {n}: {excs(e)}")
+            # geodesic over n pairs
+            qa, qb = rand_unit_quats(g, n).to(D_), rand_unit_quats(g, n).to(D_)
+            c = {"kind": "large", "fn": "geodesic_loss", "batch": n, "dtype": dtype}
+            try:
+                both = torch.cat([qa, qb], -1)
+                out = split_consistent(ctx, c, "geodesic_loss(batch)",
+                                       lambda x: P.geodesic_loss(P.SO3(x[..., :4]), P.SO3(x[..., 4:]), reduction="none"), both, 0, cuts)
+                want = R.qangle(R.qmul(qa.double().numpy(), R.qconj(qb.double().numpy())))
+                e = np.abs(out.double().numpy() - want)
+                if not e.max() <= 24 * eps:
+                    ctx.fail(c | {"item": int(e.argmax())}, f"large: geodesic_loss item {int(e.argmax())} of {n} is off by {e.max():.3e}")
+                for rd, ref in (("sum", out.double().sum()), ("mean", out.double().mean())):
+                    r_ = P.geodesic_loss(P.SO3(qa), P.SO3(qb), reduction=rd)
+                    if not abs(float(r_) - float(ref)) <= 64 * eps * abs(float(ref)) * (1 + math.log2(n)):
+                        ctx.fail(c | {"reduction": rd}, f"large: reduction={rd!r} over {n} items gives {float(r_)!r}, the items give {float(ref)!r}")
+            except Exception as e:
+                ctx.fail(c, f"large-raises: geodesic_loss raised on {n} items: {excs(e)}")
+        # long sequences: chspline / bspline with n points / poses — every segment = the call on its own window
+        if n <= 4097:
+            c = {"kind": "large", "fn": "chspline", "N": n}
+            try:
+                pts = torch.randn(n, 2, generator=g, dtype=torch.float64)
+                out = P.chspline(pts, 0.5)
+                if out.shape[0] != (n - 1) * 2 + 1 or not bool(((out[::2] - pts).abs() <= 16 * EPS64 * (1 + pts.abs())).all()):
+                    ctx.fail(c, f"large: chspline with {n} points: wrong count or not interpolating")
+                for i in sorted({1, n // 2, n - 3, (n // 256) * 256 - 1 if n > 300 else 2}):
+                    if 1 <= i <= n - 3:
+                        w = P.chspline(pts[i - 1:i + 3].clone(), 0.5)
+                        ctx.count("large.chspline(N)")
+                        if not bool(((w[2:5] - out[2 * i:2 * i + 3]).abs() <= 64 * EPS64 * (1 + pts[i - 1:i + 3].abs().max())).all()):
+                            ctx.fail(c | {"segment": i}, f"large: segment {i} of a chspline through {n} points differs from the spline through its own four points")
+            except Exception as e:
+                ctx.fail(c, f"large-raises: chspline raised on {n} points: {excs(e)}")
+            c = {"kind": "large", "fn": "bspline", "N": n}
+            try:
+                X = rand_poses_t(g, (n,))
+                for ex in (False, True):
+                    out = P.bspline(lt(X), 0.5, extrapolate=ex).tensor()
+                    nseg = n + (1 if ex else -3)
+                    if out.shape[0] != nseg * 2 + 1:
+                        ctx.fail(c | {"extrapolate": ex}, f"large: bspline with {n} poses returns {out.shape[0]} poses, expected {nseg * 2 + 1}")
+                        continue
+                    off = 2 if ex else 0
+                    for i in sorted({0, n // 2, n - 4, (n // 256) * 256 - 2 if n > 300 else 1}):
+                        if 0 <= i <= n - 4:
+                            w = P.bspline(lt(X[i:i + 4].clone()), 0.5).tensor()
+                            ctx.count("large.bspline(N)")
+                            if not same_bits(w[:2], out[2 * (i + off):2 * (i + off) + 2]):
+                                ctx.fail(c | {"segment": i, "extrapolate": ex}, f"large: segment {i} of a bspline through {n} poses differs from the spline of its own four control poses")
+                    if ex and not (same_bits(out[0], X[0]) or bool(((out[0] - X[0]).abs() <= 64 * EPS64 * 4).all())):
+                        ctx.fail(c, f"large: extrapolated bspline through {n} poses does not start at the first pose")
+            except Exception as e:
+                ctx.fail(c, f"large-raises: bspline raised on {n} poses: {excs(e)}")
+        # ape / rpe on n poses: vectorised definition + concatenation consistency
+        if n <= (4097 if quick else 16385) and n not in (1023, 4095, 16383):
+            c = {"kind": "large", "fn": "ape/rpe", "M": n}
+            try:
+                rp_, ep_ = rand_poses_t(g, (n,)), rand_poses_t(g, (n,))
+                st = torch.arange(n, dtype=torch.float64) * 0.1
+                es_ = st + (torch.rand(n, generator=g, dtype=torch.float64) - 0.5) * 0.01
+                with warnings.catch_warnings():
+                    warnings.simplefilter("ignore")
+                    r_all = A.ape(st, P.SE3(rp_), es_, P.SE3(ep_), etype="pose")
+                    a_ = n // 2 + 1
+                    r_lo = A.ape(st[:a_], P.SE3(rp_[:a_]), es_[:a_], P.SE3(ep_[:a_]), etype="pose")
+                    r_hi = A.ape(st[a_:], P.SE3(rp_[a_:]), es_[a_:], P.SE3(ep_[a_:]), etype="pose")
+                    q_all = A.rpe(st, P.SE3(rp_), es_, P.SE3(ep_), etype="radian", all=True)
+                ctx.note_case(("pass4", "large", "ape", n), True)
+                ctx.count("large.ape/rpe")
+                want = np_stats(np_rel_errors("pose", rp_.numpy(), ep_.numpy(), False))
+                bad = stats_close(stat_vals(r_all), want, 64 * EPS64 * 8, n)
+                if bad:
+                    ctx.fail(c, f"large: ape over {n} poses: {bad} = {float(r_all[bad])!r}, the documented error over all pairs gives {want[STAT_KEYS.index(bad)]!r}")
+                if not (abs(float(r_all["SSE"]) - float(r_lo["SSE"]) - float(r_hi["SSE"])) <= 64 * EPS64 * float(r_all["SSE"]) * 8
+                        and float(r_all["Max"]) == max(float(r_lo["Max"]), float(r_hi["Max"])) and float(r_all["Min"]) == min(float(r_lo["Min"]), float(r_hi["Min"]))):
+                    ctx.fail(c | {"cut": a_}, f"split: ape over {n} poses is not the combination of ape over poses [:{a_}] and [{a_}:] (SSE / Max / Min)")
+
+                def rel(Ax):
+                    return np.stack([R.se3_vec(R.se3_mul(R.se3_inv((a[:3], a[3:])), (b[:3], b[3:]))) for a, b in zip(Ax[:-1], Ax[1:])])
+                if n <= 1025:
+                    want = np_stats(np_rel_errors("radian", rel(rp_.numpy()), rel(ep_.numpy()), True))
+                    bad = stats_close(stat_vals(q_all), want, 256 * EPS64 * 8, n - 1)
+                    if bad:
+                        ctx.fail(c, f"large: rpe over {n} poses: {bad} = {float(q_all[bad])!r}, documented {want[STAT_KEYS.index(bad)]!r}")
+            except Exception as e:
+                ctx.fail(c, f"large-raises: ape/rpe raised on {n} poses: {excs(e)}")
+    # ------------------------------------------------------------ class 20: exact coincidences
+    ident = [0.0, 0.0, 0.0, 1.0]
+    # (a) stamps: exactly equidistant, exactly max_diff away, duplicated stamps — every value a small integer / half-integer
+    for ti, (s1, s2, diff, off) in enumerate([
+            ([0.5, 1.5, 2.5, 4.0], [0.0, 1.0, 2.0, 3.0, 4.0], 0.75, 0.0),        # exact ties between two candidates
+            ([0.0, 1.0, 2.0, 3.0], [0.5, 1.5, 2.5, 3.5], 0.5, 0.0),               # |d| == max_diff exactly: strict <, nothing matches
+            ([0.0, 1.0, 2.0, 3.0], [0.5, 1.5, 2.5, 3.5], 0.5000000000000001, 0.0),
+            ([0.0, 1.0, 1.0, 2.0], [0.0, 1.0, 1.0, 2.0, 2.0], 0.25, 0.0),         # duplicated stamps
+            ([1.0, 2.0, 3.0], [0.0, 1.0, 2.0, 3.0, 4.0], 0.5, 1.0),               # offset moves the partner exactly onto the next stamp
+            ([2.0, 4.0, 6.0], [1.0, 3.0, 5.0, 7.0], 1.5, 0.0), ([2.0, 4.0, 6.0], [1.0, 3.0, 5.0, 7.0], 1.0, 0.0)]):
+        c = {"kind": "ties", "what": "stamps", "index": ti, "s1": s1, "s2": s2, "diff": diff, "offset": off}
+        ctx.note_case(("pass4", "ties", "stamps", ti), True)
+        ctx.count("ties.stamps")
+        try:
+            mi = A.matching_time_indices(torch.tensor(s1, dtype=torch.float64), torch.tensor(s2, dtype=torch.float64), diff, off)
+            got = [x for p_ in zip(mi[0], mi[1]) for x in p_]
+            want, _ = R.match_oracle(s1, s2, diff, off)
+            if got != [x for p_ in want for x in p_]:
+                ctx.fail(c, f"ties: matching_time_indices on exactly tied stamps gives {got}, nearest-with-first-index-on-ties and strict '< diff' gives {want}")
+
+            def cbt(rep, got=got, c=c):
+                st_, toks = common.parse_reply(rep)
+                if st_ != "ok" or [int(t) for t in toks] != got:
+                    ctx.disagree("match", c, f"exact ties: implementation {got} model {rep[:60]}")
+            mb.add(f"c19.match {to_wire(diff)} {to_wire(off)} {len(s1)} {wire_list(s1)} {len(s2)} {wire_list(s2)}", cbt)
+        except Exception as e:
+            ctx.fail(c, f"ties-raises: matching_time_indices raised on tied stamps: {excs(e)}")
+    # (b) distance pairing on an integer lattice: exact `>= delta`, exact argmin ties, |d - delta| == tol exactly
+    lat = np.array([[float(x), 0.0, 0.0] + ident for x in (0, 1, 2, 3, 5, 6, 8, 9, 10, 12)])
+    for ti, (delta, rtol, all_) in enumerate([(2.0, 0.1, False), (1.0, 0.1, False), (3.0, 0.0, False), (1.5, 0.5, True), (2.0, 0.0, True),
+                                              (2.0, 0.5, True), (2.5, 0.2, True), (4.0, 0.25, True)]):
+        c = {"kind": "ties", "what": "distance pairing", "delta": delta, "rtol": rtol, "all": all_}
+        ctx.note_case(("pass4", "ties", "pairs", ti), True)
+        ctx.count("ties.pairs")
+        try:
+            with warnings.catch_warnings():
+                warnings.simplefilter("ignore")
+                gp = A.pair_id(A.StampedSE3(None, P.SE3(torch.tensor(lat))), delta, "distance", rtol, all_)
+            gp = [x for p_ in zip(list(gp[0]), list(gp[1])) for x in p_]
+
+            def cbp(rep, gp=gp, c=c):
+                st_, toks = common.parse_reply(rep)
+                w = [int(t) for t in toks] if st_ == "ok" else None
+                if w != gp:
+                    ctx.disagree("pairs", c, f"exact ties: pair_id gives {gp}, the model {w}")
+                    ctx.fail(c, f"ties: pair_id(distance, delta={c['delta']}, rtol={c['rtol']}, all={c['all']}) on an integer lattice gives {gp}; the documented rule "
+                                f"(first index on ties, '>= delta', '> tol' rejects) gives {w}")
+            mb.add(f"c19.pairs 1 {int(delta)} {to_wire(delta)} {to_wire(rtol)} {1 if all_ else 0} {len(lat)} " + wire_list(lat.flatten().tolist()), cbp)
+        except Exception as e:
+            ctx.fail(c, f"ties-raises: pair_id raised on the lattice: {excs(e)}")
+    # (c) quarter / half turns with |v| == |w| bit for bit, both hemispheres, axis-aligned and generic; equal diagonal entries
+    h = math.sqrt(0.5)
+    qs = [[h, 0, 0, h], [0, h, 0, h], [0, 0, h, -h], [-h, 0, 0, -h], [0.5, 0.5, 0.5, 0.5], [-0.5, 0.5, -0.5, -0.5], [1.0, 0, 0, 0], [0, 0, -1.0, 0],
+          [h, h, 0, 0], [0.5, 0.5, 0.5, -0.5], ident, [0, 0, 0, -1.0]]
+    for dtype in ("float64", "float32"):
+        eps = EPS[dtype]
+        Q = torch.tensor(qs, dtype=torch.float64).to(DT[dtype])
+        c = {"kind": "ties", "what": "quarter/half turns", "dtype": dtype}
+        ctx.note_case(("pass4", "ties", "geo", dtype), True)
+        ctx.count("ties.geo")
+        try:
+            I = P.identity_SO3(len(qs), dtype=DT[dtype])
+            got = P.geodesic_loss(P.SO3(Q), I, reduction="none").double().numpy()
+            want = R.qangle(Q.double().numpy())
+            if not np.abs(got - want).max() <= 24 * eps:
+                j = int(np.abs(got - want).argmax())
+                ctx.fail(c | {"item": j}, f"ties: geodesic_loss of the exact turn {qs[j]} against the identity is {got[j]!r}, the angle is {want[j]!r}")
+            for j, qv in enumerate(Q.double().tolist()):
+                def cbg(rep, g_=float(got[j]), j=j, c=c, eps=eps):
+                    if not abs(nums(rep)[0] - g_) <= 24 * eps:
+                        ctx.disagree("geo", c, f"exact turn {j}: implementation {g_!r} model {nums(rep)[0]!r}")
+                mb.add(f"c19.geo {to_wire(eps)} " + wire_list(qv + ident), cbg)
+            # the same turns as relative rotations of bspline control poses and as ape rotation errors
+            base = rand_poses_t(g, (1,))[0]
+            seq = [base.numpy()]
+            for qv in qs[:6] + qs[9:10]:
+                seq.append(R.se3_vec(R.se3_mul((seq[-1][:3], seq[-1][3:]), (np.array([0.3, -0.2, 0.1]), np.array(qv, dtype=np.float64)))))
+            case_bs = {"kind": "bs", "dtype": dtype, "N": len(seq), "batch": [], "interval": 0.5, "extrapolate": False, "gen": "walk", "rot": 1.57,
+                       "tscale": 1.0, "flip": False, "continuity": 0, "seed": CORPUS_SEED + 41, "_X": torch.tensor(np.stack(seq)).to(DT[dtype])}
+            check_bs(ctx, case_bs, mb)
+            refp = rand_poses_t(g, (len(qs),)).numpy()
+            estp = np.stack([R.se3_vec(R.se3_mul((p_[:3], p_[3:]), (np.zeros(3), np.array(qv, dtype=np.float64)))) for p_, qv in zip(refp, qs)])
+            for et in ("radian", "degree", "rotation"):
+                with warnings.catch_warnings():
+                    warnings.simplefilter("ignore")
+                    r_ = A.ape(None, se3t(refp, dtype), None, se3t(estp, dtype), etype=et)
+                rp64, ep64 = se3t(refp, dtype).tensor().double().numpy(), se3t(estp, dtype).tensor().double().numpy()
+                want = np_stats(np_rel_errors(et, rp64, ep64, False))
+                bad = stats_close(stat_vals(r_), want, 8 * err_tol(et, 1.0) + (16 * eps * 60 if dtype == "float32" else 0), len(qs))
+                if bad:
+                    ctx.fail(c | {"etype": et}, f"ties: ape(etype={et}) with exact quarter/half-turn rotation errors: {bad} = {float(r_[bad])!r}, documented {want[STAT_KEYS.index(bad)]!r}")
+        except Exception as e:
+            ctx.fail(c, f"ties-raises: exact turns raised: {excs(e)}")
+    # (d) equal singular values in the alignment: translations on the vertices of a cube / octahedron
+    cube = np.array([[x, y, z] for x in (-1.0, 1.0) for y in (-1.0, 1.0) for z in (-1.0, 1.0)])
+    octa = np.array([[1.0, 0, 0], [-1.0, 0, 0], [0, 1.0, 0], [0, -1.0, 0], [0, 0, 1.0], [0, 0, -1.0]])
+    for nm, V in (("cube", cube), ("octahedron", octa)):
+        refp = np.concatenate([V, R.qnormalize(rand_unit_quats(g, len(V)).numpy())], -1)
+        S = (1.7, R.rand_quat(random.Random(7)), np.array([0.3, -2.0, 5.0]))
+        estp = R.apply_sim(1 / S[0], R.qconj(S[1]), -R.qrot(R.qconj(S[1]), S[2]) / S[0], refp)       # est = S^-1 ref  =>  aligned est = ref
+        c = {"kind": "ties", "what": f"equal singular values ({nm})"}
+        ctx.note_case(("pass4", "ties", "svd", nm), True)
+        ctx.count("ties.svd")
+        try:
+            with warnings.catch_warnings():
+                warnings.simplefilter("ignore")
+                z = A.ape(None, P.SE3(torch.tensor(refp)), None, P.SE3(torch.tensor(estp)), etype="pose", align=True, scale=True)
+                z2 = A.ape(None, P.SE3(torch.tensor(refp)), None, P.SE3(torch.tensor(R.left_mul((S[2], S[1]), refp))), etype="translation", align=True)
+            for zz, lab in ((z, "similarity"), (z2, "rigid")):
+                wv = max(abs(float(zz[k_])) for k_ in STAT_KEYS if k_ != "SSE")
+                if not wv <= 1e4 * EPS64:
+                    ctx.fail(c | {"transform": lab}, f"ties: ape(align) of a trajectory on the vertices of a {nm} (three equal singular values) against its {lab} image is {wv:.3e}, expected 0")
+        except Exception as e:
+            ctx.fail(c, f"ties-raises: ape(align) raised on the {nm}: {excs(e)}")
+    # ------------------------------------------------------------ class 21: user subclasses
+    class MyLie(P.LieTensor):
+        pass
+
+    class MyLoss(P.module.GeodesicLoss):
+        def forward(self, input, target):
+            return super().forward(input, target) * 2.0
+    Xs = rand_poses_t(g, (2, 6))
+    lie_sub_ok = True
+    try:                      # scope rule: a user subclass of LieTensor loses its ltype inside the library on the unchanged tree
+        MyLie(Xs.clone(), ltype=P.SE3_type).Inv().ltype        # (observation in the notes) -> only exercised if it works at all
+    except Exception:
+        lie_sub_ok = False
+        ctx.count("subclass.LieTensor-unsupported")
+    c = {"kind": "subclass", "fn": "bspline"}
+    if lie_sub_ok:
+        expect_same(ctx, c, "user LieTensor subclass", P.bspline(lt(Xs), 0.4, True).tensor(), lambda: P.bspline(MyLie(Xs.clone(), ltype=P.SE3_type), 0.4, True).tensor())
+    c = {"kind": "subclass", "fn": "geodesic_loss"}
+    if lie_sub_ok:
+        expect_same(ctx, c, "user LieTensor subclass", P.geodesic_loss(lt(Xs[0]), lt(Xs[1]), reduction="none"),
+                    lambda: P.geodesic_loss(MyLie(Xs[0].clone(), ltype=P.SE3_type), MyLie(Xs[1].clone(), ltype=P.SE3_type), reduction="none"))
+    expect_same(ctx, c, "user GeodesicLoss subclass follows its own forward", P.geodesic_loss(lt(Xs[0]), lt(Xs[1]), reduction="sum") * 2.0,
+                lambda: MyLoss(reduction="sum")(lt(Xs[0]), lt(Xs[1])))
+    c = {"kind": "subclass", "fn": "ape/rpe"}
+    st6 = torch.arange(6, dtype=torch.float64)
+    with warnings.catch_warnings():
+        warnings.simplefilter("ignore")
+        ra_ = A.ape(st6, lt(Xs[0]), st6, lt(Xs[1]), etype="pose", align=True)
+        rr_ = A.rpe(st6, lt(Xs[0]), st6, lt(Xs[1]), etype="radian")
+    class MyMod(torch.nn.Module):          # plain nn.Module / function versions of the same loss
+        def forward(self, a_, b_):
+            return P.geodesic_loss(a_, b_, reduction="sum")
+    expect_same(ctx, {"kind": "subclass", "fn": "geodesic_loss"}, "plain nn.Module wrapper", P.geodesic_loss(lt(Xs[0]), lt(Xs[1]), reduction="sum"), lambda: MyMod()(lt(Xs[0]), lt(Xs[1])))
+    if lie_sub_ok:
+      expect_same(ctx, c, "user LieTensor subclass (ape)", ra_, lambda: A.ape(st6, MyLie(Xs[0].clone(), ltype=P.SE3_type), st6, MyLie(Xs[1].clone(), ltype=P.SE3_type), etype="pose", align=True))
+      expect_same(ctx, c, "user LieTensor subclass (rpe)", rr_, lambda: A.rpe(st6, MyLie(Xs[0].clone(), ltype=P.SE3_type), st6, MyLie(Xs[1].clone(), ltype=P.SE3_type), etype="radian"))
+    # ------------------------------------------------------------ class 22: clocks above 2^24 / UNIX epochs with float32 poses
+    M = 12
+    refp, estp = rand_poses_t(g, (M,)), rand_poses_t(g, (M,))
+    for ti, (stamps_r, stamps_e, diff, off) in enumerate([
+            (torch.arange(M, dtype=torch.int64) * 2 + (2 ** 24 + 1), torch.arange(M, dtype=torch.int64) * 2 + (2 ** 24 + 1), 0.5, 0.0),
+            (torch.arange(M, dtype=torch.int64) * 2 + (2 ** 24 + 1), torch.arange(M, dtype=torch.int64) * 2 + (2 ** 24 + 2), 1.5, 0.0),
+            (torch.arange(M, dtype=torch.int64) * 100 + 1700000000000, torch.arange(M, dtype=torch.int64) * 100 + 1700000000007, 10.0, 0.0),
+            (torch.arange(M, dtype=torch.float64) * 0.004 + 1700000000.25, torch.arange(M, dtype=torch.float64) * 0.004 + 1700000000.251, 0.002, 0.0),
+            (torch.arange(M, dtype=torch.float64) * 0.004 + 1700000000.25, torch.arange(M, dtype=torch.float64) * 0.004 + 0.251, 0.002, 1700000000.0),
+            (torch.arange(M, dtype=torch.int64) + (2 ** 53 - 64), torch.arange(M, dtype=torch.int64) + (2 ** 53 - 64), 0.5, 0.0)]):
+        for dtype in ("float32", "float64"):
+            c = {"kind": "clock", "index": ti, "dtype": dtype, "first_stamp": float(stamps_r[0]), "diff": diff, "offset": off}
+            ctx.note_case(("pass4", "clock", ti, dtype), True)
+            ctx.count("clock")
+            try:
+                with warnings.catch_warnings():
+                    warnings.simplefilter("ignore")
+                    r1 = A.ape(stamps_r, se3t(refp.numpy(), dtype), stamps_e, se3t(estp.numpy(), dtype), etype="pose", diff=diff, offset=off)
+                    r0 = A.ape(None, se3t(refp.numpy(), dtype), None, se3t(estp.numpy(), dtype), etype="pose")
+                    q1 = A.rpe(stamps_r, se3t(refp.numpy(), dtype), stamps_e, se3t(estp.numpy(), dtype), etype="radian", diff=diff, offset=off, all=True)
+                    q0 = A.rpe(None, se3t(refp.numpy(), dtype), None, se3t(estp.numpy(), dtype), etype="radian", all=True)
+                if not (bits_eq(r1, r0) and bits_eq(q1, q0)):
+                    ctx.fail(c, f"clock: ape/rpe with {dtype} poses and stamps starting at {float(stamps_r[0])!r} ({stamps_r.dtype}) do not pair pose i with pose i "
+                                f"(differs from the result with index stamps)")
+            except Exception as e:
+                ctx.fail(c, f"clock-raises: ape/rpe raised with large stamps: {excs(e)}")
+    # ------------------------------------------------------------ class 23: a key first seen under inference_mode / no_grad, then autograd
+    for ki, (N_, iv_, dtype) in enumerate([(11, 0.37, "float64"), (13, 0.23, "float32"), (17, 0.41, "float64")]):
+        D_ = DT[dtype]
+        pts = torch.randn(N_, 3, generator=g, dtype=torch.float64).to(D_)
+        Xk = rand_poses_t(g, (N_,)).to(D_)
+        qa, qb = rand_unit_quats(g, N_).to(D_), rand_unit_quats(g, N_).to(D_)
+        stN = torch.arange(N_, dtype=torch.float64) * 0.37
+        calls = {"chspline": lambda p_=pts: P.chspline(p_, iv_), "bspline": lambda x_=Xk: P.bspline(lt(x_), iv_, True).tensor(),
+                 "geodesic_loss": lambda a_=qa, b_=qb: P.geodesic_loss(P.SO3(a_), P.SO3(b_)),
+                 "ape": lambda x_=Xk: A.ape(stN, lt(x_.double()), stN, lt(x_.double().flip(0)), etype="pose", align=True)["RMSE"]}
+        for nm, f in calls.items():
+            for first in ("inference_mode", "no_grad"):
+                c = {"kind": "modecache", "fn": nm, "first_mode": first, "key": [N_, iv_, dtype]}
+                ctx.note_case(("pass4", "modecache", nm, first, ki), True)
+                ctx.count("modecache")
+                try:
+                    with warnings.catch_warnings():
+                        warnings.simplefilter("ignore")
+                        with (torch.inference_mode() if first == "inference_mode" else torch.no_grad()):
+                            v0 = f()
+                        leaf = {"chspline": pts, "bspline": Xk, "geodesic_loss": qa, "ape": Xk}[nm].clone().requires_grad_(True)
+                        if nm == "geodesic_loss":
+                            v1 = P.geodesic_loss(P.SO3(leaf), P.SO3(qb))
+                        else:
+                            v1 = f(leaf)
+                        v1s = v1.sum() if v1.dim() else v1
+                        v1s.backward()
+                    if leaf.grad is None or not bool(torch.isfinite(leaf.grad).all()):
+                        ctx.fail(c, f"modecache: {nm} called under autograd after a first call of the same size under {first}: no finite gradient")
+                    if not bits_eq(v0.clone() if hasattr(v0, "clone") else v0, v1.detach()):
+                        ctx.fail(c, f"modecache: {nm} under autograd (after a first call under {first}) returns other values")
+                except Exception as e:
+                    ctx.fail(c, f"modecache-raises: {nm} under autograd after a first call under {first} raised {excs(e)}")
+    # ------------------------------------------------------------ class 25: process-wide default dtype x operand dtype, metadata compared
+    old_default = torch.get_default_dtype()
+    try:
+        results = {}
+        for dflt in (torch.float32, torch.float64, torch.float32):
+            torch.set_default_dtype(dflt)
+            for dtype in ("float32", "float64"):
+                D_ = DT[dtype]
+                pts = (torch.arange(30, dtype=torch.float64).reshape(5, 6) * 0.37 % 1.9).reshape(2, 5, 3).to(D_)
+                Xd_ = torch.tensor(R.walk(random.Random(5), 6, 1.0, 0.7), dtype=torch.float64).to(D_)
+                qx_ = torch.tensor(np.stack([R.rand_quat(random.Random(9 + i)) for i in range(4)]), dtype=torch.float64).to(D_)
+                stD = torch.arange(6, dtype=torch.float64)
+                with warnings.catch_warnings():
+                    warnings.simplefilter("ignore")
+                    outs = {"chspline": P.chspline(pts, 0.3), "bspline": P.bspline(lt(Xd_), 0.3), "bspline(extrapolate)": P.bspline(lt(Xd_), 0.3, True),
+                            "geodesic(none)": P.geodesic_loss(P.SO3(qx_), P.SO3(qx_.flip(0)), reduction="none"),
+                            "geodesic(mean)": P.geodesic_loss(P.SO3(qx_), P.SO3(qx_.flip(0))),
+                            "geodesic(so3)": P.geodesic_loss(P.SO3(qx_).Log(), P.SO3(qx_.flip(0)), reduction="sum"),
+                            "GeodesicLoss": P.module.GeodesicLoss("sum")(P.SO3(qx_), P.SO3(qx_.flip(0))),
+                            "ape": A.ape(stD, lt(Xd_), stD, lt(Xd_.flip(0)), etype="pose", align=True, scale=True)["RMSE"],
+                            "ape(origin)": A.ape(stD, lt(Xd_), stD, lt(Xd_.flip(0)), etype="radian", origin=True)["Max"],
+                            "rpe": A.rpe(stD, lt(Xd_), stD, lt(Xd_.flip(0)), etype="translation", all=True)["Mean"]}
+                for nm, o in outs.items():
+                    c = {"kind": "defaultdtype", "fn": nm, "default": str(dflt), "operand": dtype}
+                    ctx.note_case(("pass4", "defaultdtype", nm, str(dflt), dtype), True)
+                    ctx.count("defaultdtype")
+                    want_dt = torch.float64 if nm in ("ape", "ape(origin)", "rpe") else D_
+                    if o.dtype != want_dt:
+                        ctx.fail(c, f"defaultdtype: {nm} with {dtype} operands under default {dflt} returns dtype {o.dtype}, documented {want_dt}")
+                    if nm.startswith("bspline") and (type(o).__name__ != "LieTensor" or o.ltype != P.SE3_type):
+                        ctx.fail(c, f"defaultdtype: {nm} returned {type(o).__name__} / {getattr(o, 'ltype', None)}")
+                    key = (nm, dtype)
+                    ot = o.tensor() if hasattr(o, "ltype") else o
+                    if key in results and not bits_eq(results[key], ot):
+                        ctx.fail(c, f"defaultdtype: {nm} with {dtype} operands gives other values under default {dflt} than under the previous default")
+                    results[key] = ot.clone()
+    except Exception as e:
+        ctx.fail({"kind": "defaultdtype"}, f"defaultdtype-raises: {excs(e)}")
+    finally:
+        torch.set_default_dtype(old_default)
+    # ------------------------------------------------------------ class 26: sign conventions
+    M = 10
+    refp, estp = rand_poses_t(g, (M,)), rand_poses_t(g, (M,))
+    base = torch.arange(M, dtype=torch.float64) * 0.5
+    with warnings.catch_warnings():
+        warnings.simplefilter("ignore")
+        r0 = A.ape(base, P.SE3(refp), base, P.SE3(estp), etype="pose")
+        q0 = A.rpe(base, P.SE3(refp), base, P.SE3(estp), etype="rotation", all=True)
+    for ti, (rs_, es_, off) in enumerate([(base - 100.0, base - 100.0, 0.0), (base - 2.0, base - 2.0, 0.0), (-base.flip(0), -base.flip(0), 0.0),
+                                           (base, base + 7.0, -7.0), (base, base - 7.0, 7.0), (base - 3.0, base + 1.0, -4.0), (base * 0.0 + base, base - 1e-3, 1e-3)]):
+        c = {"kind": "signs", "what": "stamps / offset", "index": ti, "first_rstamp": float(rs_[0]), "first_estamp": float(es_[0]), "offset": off}
+        expect_same(ctx, c | {"fn": "ape"}, f"negative / zero-crossing stamps, offset {off}", r0, lambda: A.ape(rs_, P.SE3(refp), es_, P.SE3(estp), etype="pose", offset=off))
+        expect_same(ctx, c | {"fn": "rpe"}, f"negative / zero-crossing stamps, offset {off}", q0, lambda: A.rpe(rs_, P.SE3(refp), es_, P.SE3(estp), etype="rotation", all=True, offset=off))
+    # all-negative / mixed-sign translations: moving everything into the negative octant is a common left transformation
+    shift = np.array([-1e3, -2e3, -5e2])
+    with warnings.catch_warnings():
+        warnings.simplefilter("ignore")
+        for kw in (dict(etype="translation"), dict(etype="pose", align=True), dict(etype="pose", scale=True), dict(etype="radian", origin=True)):
+            a0 = A.ape(base, P.SE3(refp), base, P.SE3(estp), **kw)
+            a1 = A.ape(base, P.SE3(torch.tensor(R.left_mul((shift, np.array(ident)), refp.numpy()))), base,
+                       P.SE3(torch.tensor(R.left_mul((shift, np.array(ident)), estp.numpy()))), **kw)
+            c = {"kind": "signs", "what": "all-negative translations", "kwargs": {k_: str(v_) for k_, v_ in kw.items()}}
+            ctx.note_case(("pass4", "signs", "neg", str(kw)), True)
+            bad = stats_close(stat_vals(a1), stat_vals(a0), 64 * EPS64 * 5e3 * (1e3 if ("align" in kw or "scale" in kw) else 8), M)
+            if bad:
+                ctx.fail(c, f"signs: ape({kw}) changes when both trajectories are shifted into the negative octant: {bad} {float(a0[bad])!r} -> {float(a1[bad])!r}")
+    # negative / zero scalars that the documentation excludes must be refused (or at least not silently accepted with garbage)
+    for nm, f in (("chspline interval=-0.5", lambda: P.chspline(torch.zeros(4, 2), -0.5)), ("chspline interval=0", lambda: P.chspline(torch.zeros(4, 2), 0.0)),
+                  ("bspline interval=-0.5", lambda: P.bspline(P.randn_SE3(5), -0.5)), ("rpe delta=-1 (frame)", lambda: A.rpe(base, P.SE3(refp), base, P.SE3(estp), delta=-1.0)),
+                  ("rpe delta=0 (frame)", lambda: A.rpe(base, P.SE3(refp), base, P.SE3(estp), delta=0.0)),
+                  ("decreasing stamps", lambda: A.ape(base.flip(0), P.SE3(refp), base.flip(0), P.SE3(estp))),
+                  ("negative diff", lambda: A.ape(base, P.SE3(refp), base, P.SE3(estp), diff=-0.01))):
+        c = {"kind": "signs", "what": nm}
+        ctx.note_case(("pass4", "signs", nm), True)
+        ctx.count("signs.rejected")
+        try:
+            with warnings.catch_warnings():
+                warnings.simplefilter("ignore")
+                out = f()
+            ctx.fail(c, f"signs: {nm} was accepted and returned {type(out).__name__} instead of being refused")
+        except Exception:
+            pass
+
+
 # ============================================================================= entry points
 
 def run(ctx: Ctx):
@@ -2227,10 +2701,11 @@ def run(ctx: Ctx):
     guard(ctx, {"kind": "stale"}, "stale", lambda: run_stale(ctx))
     guard(ctx, {"kind": "views"}, "views", lambda: run_views(ctx))
     guard(ctx, {"kind": "pass2"}, "pass2", lambda: run_pass2(ctx))
-    run_chs(ctx, mb, ctx.pick(90, 1000))
-    run_bs(ctx, mb, ctx.pick(50, 750))
-    run_geo(ctx, mb, ctx.pick(80, 1200))
-    run_traj(ctx, mb, ctx.pick(60, 1000))
+    guard(ctx, {"kind": "pass4"}, "pass4", lambda: run_pass4(ctx, mb))
+    run_chs(ctx, mb, ctx.pick(60, 1000))
+    run_bs(ctx, mb, ctx.pick(40, 750))
+    run_geo(ctx, mb, ctx.pick(60, 1200))
+    run_traj(ctx, mb, ctx.pick(50, 1000))
     mb.flush(ctx)
 
 
@@ -2262,6 +2737,8 @@ def replay(ctx: Ctx, case) -> bool:
         check_traj(ctx, c, mb)
     elif kind in ("args", "atomic", "gradmode", "ducktype", "copies", "ownmem", "pass2"):
         run_pass2(ctx)
+    elif kind in ("large", "ties", "subclass", "clock", "modecache", "defaultdtype", "signs", "pass4"):
+        run_pass4(ctx, mb)
     elif kind in ("stale", "views", "history", "corpus"):
         {"stale": lambda: run_stale(ctx), "views": lambda: run_views(ctx), "history": lambda: run_history(ctx, mb),
          "corpus": lambda: run_corpus(ctx, mb)}[kind]()
